@@ -96,7 +96,19 @@ func (o *sessionTracker) RemoteLogin(rul common.RemoteUserLogin) error {
 			u.setRemoteUserLoginInfo(rul)
 
 			found = true
+			sessionEnded := u.hasCachedSessionEnd()
 			writeErr = u.writeAndClearCache(o.eventWriter)
+			if sessionEnded && writeErr == nil {
+				// The event that ends the audit session was waiting in
+				// the cache and has just been written. Release the
+				// session like auditEventWithSession does, otherwise
+				// it stays around forever and a later login from a
+				// process reusing this PID may be tied to it.
+				//
+				// This is fine because the callback is called from
+				// within the Iterate function. The lock is already held.
+				o.sessIDsToUsers.DeleteUnsafe(asi)
+			}
 			// stop iteration
 			return false
 		}
@@ -350,6 +362,18 @@ func (o *user) setRemoteUserLoginInfo(login common.RemoteUserLogin) {
 // hasRemoteUserLoginInfo checks if there is a remote user login present for the user.
 func (o *user) hasRemoteUserLoginInfo() bool {
 	return o.hasRUL
+}
+
+// hasCachedSessionEnd returns true if the cached events include the event
+// that marks the end of the audit session (AUDIT_CRED_DISP).
+func (o *user) hasCachedSessionEnd() bool {
+	for i := range o.cached {
+		if o.cached[i].Type == auparse.AUDIT_CRED_DISP {
+			return true
+		}
+	}
+
+	return false
 }
 
 // toAuditEvent takes an array of coalesced events and returns and audit event
